@@ -160,24 +160,51 @@ func isScalarCell(v value) bool {
 	return false
 }
 
-// indexCell resolves &cells[idx] for a possibly symbolic idx.
-func (fr *frame) indexCell(cells []value, idx value) value {
+// symAddrOK reports whether every use of the address computed by instr can
+// work on a symbolic address (loads, stores to it, field/element selection).
+func symAddrOK(instr ssa.Value, depth int) bool {
+	refs := instr.Referrers()
+	if refs == nil || depth > 4 {
+		return false
+	}
+	for _, r := range *refs {
+		switch r := r.(type) {
+		case *ssa.UnOp:
+			if r.Op != token.MUL {
+				return false
+			}
+		case *ssa.Store:
+			if r.Addr != instr {
+				return false
+			}
+		case *ssa.FieldAddr:
+			if !symAddrOK(r, depth+1) {
+				return false
+			}
+		case *ssa.IndexAddr:
+			if r.X != instr || !symAddrOK(r, depth+1) {
+				return false
+			}
+			if _, ok := r.Index.(*ssa.Const); !ok {
+				return false
+			}
+		case *ssa.DebugRef:
+		default:
+			return false
+		}
+	}
+	return true
+}
+
+// indexCell resolves &cells[idx] for a possibly symbolic idx. symOK says that
+// a symbolic address is acceptable to the consumers of the result.
+func (fr *frame) indexCell(cells []value, idx value, symOK bool) value {
 	if s, ok := idx.(sv); ok {
 		n := int64(len(cells))
-		// bounds
 		if n == 0 {
 			panic(rtPanic("runtime error: index out of range"))
 		}
-		allScalar := n <= 300
-		if allScalar {
-			for _, c := range cells {
-				if !isScalarCell(c) {
-					allScalar = false
-					break
-				}
-			}
-		}
-		if allScalar && s.T.Sort.K == sym.KBV {
+		if symOK && n <= 1024 && s.T.Sort.K == sym.KBV {
 			t := s.T
 			// widen to 64 bits
 			if w := t.Sort.W; w < 64 {
@@ -192,6 +219,13 @@ func (fr *frame) indexCell(cells []value, idx value) value {
 				panic(rtPanic("runtime error: index out of range"))
 			}
 			return symaddr{cells: cells, idx: t}
+		}
+		if symOK && n <= 1024 && s.T.Sort.K == sym.KInt {
+			in := sym.And(sym.Le(sym.IntConst(0), s.T), sym.Lt(s.T, sym.IntConst(n)))
+			if !fr.decide(in) {
+				panic(rtPanic("runtime error: index out of range"))
+			}
+			return symaddr{cells: cells, idx: sym.Int2BV(64, s.T)}
 		}
 		c, ok := fr.concretize(idx, 0, n-1)
 		if !ok {
@@ -279,7 +313,7 @@ func visitInstr(fr *frame, instr ssa.Instruction) continuation {
 			}
 			fr.i.store(deref(instr.Addr.Type()), a, fr.get(instr.Val))
 		case symaddr:
-			fr.i.storeSym(a, fr.get(instr.Val))
+			fr.storeSym(deref(instr.Addr.Type()), a, fr.get(instr.Val))
 		default:
 			panic(fmt.Sprintf("store to %T", a))
 		}
@@ -353,6 +387,11 @@ func visitInstr(fr *frame, instr ssa.Instruction) continuation {
 		fr.env[instr] = fr.get(instr.Iter).(iter).next(fr)
 
 	case *ssa.FieldAddr:
+		if sa, ok := fr.get(instr.X).(symaddr); ok {
+			np := append(append([]int(nil), sa.path...), instr.Field)
+			fr.env[instr] = symaddr{cells: sa.cells, idx: sa.idx, path: np}
+			break
+		}
 		p := fr.get(instr.X).(*value)
 		if p == nil {
 			nilDeref()
@@ -367,12 +406,17 @@ func visitInstr(fr *frame, instr ssa.Instruction) continuation {
 		idx := fr.get(instr.Index)
 		switch x := x.(type) {
 		case []value:
-			fr.env[instr] = fr.indexCell(x, idx)
+			_, isS := idx.(sv)
+			fr.env[instr] = fr.indexCell(x, idx, isS && symAddrOK(instr, 0))
 		case *value: // *array
 			if x == nil {
 				nilDeref()
 			}
-			fr.env[instr] = fr.indexCell((*x).(array), idx)
+			_, isS := idx.(sv)
+			fr.env[instr] = fr.indexCell((*x).(array), idx, isS && symAddrOK(instr, 0))
+		case symaddr: // element of an array selected symbolically, constant index
+			np := append(append([]int(nil), x.path...), int(asInt64(idx)))
+			fr.env[instr] = symaddr{cells: x.cells, idx: x.idx, path: np}
 		default:
 			panic(fmt.Sprintf("unexpected x type in IndexAddr: %T", x))
 		}
@@ -383,11 +427,11 @@ func visitInstr(fr *frame, instr ssa.Instruction) continuation {
 
 		switch x := x.(type) {
 		case array:
-			switch a := fr.indexCell(x, idx).(type) {
+			switch a := fr.indexCell(x, idx, true).(type) {
 			case *value:
 				fr.env[instr] = *a
 			case symaddr:
-				fr.env[instr] = loadSym(a)
+				fr.env[instr] = fr.loadSym(instr.Type(), a)
 			}
 		case string:
 			if _, isS := idx.(sv); !isS {
@@ -399,19 +443,19 @@ func visitInstr(fr *frame, instr ssa.Instruction) continuation {
 				break
 			}
 			b := strBytes(x)
-			switch a := fr.indexCell(b, idx).(type) {
+			switch a := fr.indexCell(b, idx, true).(type) {
 			case *value:
 				fr.env[instr] = *a
 			case symaddr:
-				fr.env[instr] = loadSym(a)
+				fr.env[instr] = fr.loadSym(instr.Type(), a)
 			}
 		case *symstr:
 			b := x.b
-			switch a := fr.indexCell(b, idx).(type) {
+			switch a := fr.indexCell(b, idx, true).(type) {
 			case *value:
 				fr.env[instr] = *a
 			case symaddr:
-				fr.env[instr] = loadSym(a)
+				fr.env[instr] = fr.loadSym(instr.Type(), a)
 			}
 		default:
 			panic(fmt.Sprintf("unexpected x type in Index: %T", x))
